@@ -253,9 +253,37 @@ class AtomicAnalysis:
             if wr:
                 self.cand.setdefault(("stmt", e[2]), (e[2], "argument check fails (%s) after %s has already been written (%s)" % (
                     fail, wr[1], wr[0]), b["id"], st, inbr))
-            else:
+            elif not self._in_writing_loop(b["id"]):
+                # a validation that sits in the same loop as the writes is not a validation pass: its first iteration fails before any
+                # write, a later one after the earlier elements were applied
                 self.V |= set(inbr)
         return out
+
+    def _in_writing_loop(self, bid):
+        """the failing statement is reached from inside a loop that also contains a write (the failing block itself has left the loop:
+        it is found through its predecessors)"""
+        if getattr(self, "_wloops", None) is None:
+            from .certdep import natural_loops
+            loops, dom, succ = natural_loops(self.prog, self.f)
+            mut_blocks = {k[0] for k in self.mut}
+            self._wloops = [body for h, body in loops.items() if body & mut_blocks]
+            self._preds = {}
+            for a, ss in succ.items():
+                for s_ in ss:
+                    self._preds.setdefault(s_, set()).add(a)
+            self._allloops = set().union(*loops.values()) if loops else set()
+        seen, wl = {bid}, [bid]
+        while wl:
+            x = wl.pop()
+            if any(x in body for body in self._wloops):
+                return True
+            if x in self._allloops:
+                continue              # inside some other loop: that loop is the context
+            for p_ in self._preds.get(x, ()):
+                if p_ not in seen:
+                    seen.add(p_)
+                    wl.append(p_)
+        return False
 
     def refine(self, cond, truth, st):
         from ..cond import atoms as _atoms, SWAP as _SWAP
